@@ -139,7 +139,9 @@ func (p MembershipProof) DigestVerify(digest hashing.Digest, snapshot *Snapshot)
 		}
 	}
 
-	return hyperCorrect
+	// A proof that claims absence, or an insertion later than the queried
+	// version, carries no verified history part: it must not be accepted.
+	return false
 }
 
 // Verify verifies a proof and answer from QueryMembership. Returns true if the
